@@ -25,6 +25,7 @@ PROPS["C14"] = {
             "pkg": "primitives/h2c", "configs": ALL4,
             "tests": {
                 "TestC14ExpandXMD": T(6000, 400000),
+                "FuzzC14ExpandXMD": FUZZ(60, configs=["default"]),
                 "TestC14ExpandXOF": T(3000, 200000),
                 "TestC14Suites": T(1600, 100000, shards={"quick": 4, "thorough": 16}),
                 "TestC14UniformToPoint": T(600, 40000, shards={"quick": 4, "thorough": 16}),
